@@ -1,3 +1,571 @@
-"""Call-site / data-flow obligations for wn/_core.py (filled in below)."""
-def run_scope_flows(sess, prop):
-    pass
+"""Call-site / data-flow obligations for wn/_core.py.
+
+For every accessor M of spec_core: the real method body and the sidecar specification are both executed by
+pyvc against the same stubs of the wn._queries functions (results are uninterpreted functions of the call
+arguments) and against the *specifications* of the other accessors (modular: a callee is replaced by its
+contract, never by its body).  Obligation M:flow = on every pair of compatible paths the same query calls are
+made with the same arguments and the results are equal (objects compared attribute by attribute, including the
+`_wordnet` each result carries).
+"""
+from __future__ import annotations
+
+import inspect
+import typing
+from typing import Any, Optional
+
+import z3
+
+import wn
+import wn._core as core
+import wn._queries as Q
+from vc.core import Obligation, Session, Unsupported
+from vc.pyvc.values import (SV, SObj, SList, Seq, Lit, Loop, Binder, LITS, SORTS, UStr, Meta, z_and, z_or, z_not,
+                            z_bool, mk, fresh_name, is_sym)
+from vc.pyvc.interp import (explore, Outcome, MList, MDict, MSet, PyRaise, Event, SymMethod, ExcValue, source_span)
+from vc.pyvc import famcmp
+from contracts import spec_core
+from contracts.common import lit_axioms
+
+# result shapes of the query functions: tuple of kinds, '?' = optional; a str = scalar result
+ROW_KINDS = {
+    'get_entry_senses': ('str', 'str', 'str', 'int', 'int'),
+    'get_synset_members': ('str', 'str', 'str', 'int', 'int'),
+    'find_senses': ('str', 'str', 'str', 'int', 'int'),
+    'find_entries': ('str', 'str', 'obj', 'int', 'int'),
+    'find_synsets': ('str', 'str', 'str?', 'int', 'int'),
+    'get_synsets_for_ilis': ('str', 'str', 'str?', 'int', 'int'),
+    'get_synset_relations': ('str', 'str', 'meta?', 'int', 'str', 'str', 'str?', 'int', 'int'),
+    'get_sense_synset_relations': ('str', 'str', 'meta?', 'int', 'str', 'str', 'str?', 'int', 'int'),
+    'get_sense_relations': ('str', 'str', 'meta?', 'str', 'str', 'str', 'int', 'int'),
+    'get_definitions': ('str', 'str?', 'str?', 'int'),
+    'get_examples': ('str', 'str?', 'int'),
+    'get_sense_counts': ('int', 'int'),
+    'get_syntactic_behaviours': ('str',),
+    'get_form_pronunciations': ('str', 'str?', 'str?', 'bool', 'str?'),
+    'get_form_tags': ('str', 'str'),
+    'find_ilis': ('str?', 'str', 'str?', 'int'),
+    'find_proposed_ilis': ('str?', 'str', 'str?', 'int'),
+    'find_lexicons': ('int', 'str', 'str', 'str', 'str', 'str', 'str', 'str?', 'str?', 'str?'),
+    'get_lexicon_dependencies': ('str', 'str', 'str?', 'int?'),
+    'get_lexicon_extension_bases': ('int',),
+    'get_lexicon_extensions': ('int',),
+}
+SCALAR_KINDS = {
+    'get_metadata': 'meta', 'get_lexicalized': 'bool', 'get_adjposition': 'str?', 'get_lexfile': 'str?',
+    'get_modified': 'bool',
+}
+FLAT = {'get_syntactic_behaviours', 'get_lexicon_extension_bases', 'get_lexicon_extensions'}
+
+
+def arg_key(v) -> tuple:
+    """(name part, z3 parent terms) identifying an argument value."""
+    if isinstance(v, SV):
+        terms = [v.z]
+        if v.none is not None:
+            terms.append(z3.If(v.none, 1, 0))
+        return ('', terms)
+    if v is None:
+        return ('None', [])
+    if isinstance(v, (str, int, bool, float)):
+        return (repr(v), [])
+    if isinstance(v, SList):
+        return (f'<{v.name}>', list(v.parents))
+    if isinstance(v, MSet) and not v.nodes:
+        parts = [arg_key(x) for x in v.items]
+        return ('{' + ','.join(p[0] for p in parts) + '}', [t for p in parts for t in p[1]])
+    if isinstance(v, (tuple, MList)) and (not isinstance(v, MList) or v.is_concrete()):
+        items = v if isinstance(v, tuple) else v.items()
+        parts = [arg_key(x) for x in items]
+        return ('(' + ','.join(p[0] for p in parts) + ')', [t for p in parts for t in p[1]])
+    if isinstance(v, SObj):
+        return (f'@{v.name}', [])
+    if isinstance(v, Seq) or isinstance(v, MList):
+        return (f'<seq {getattr(v, "label", "")}>', [])
+    return (type(v).__name__, [])
+
+
+def make_value(kind: str, name: str, parents: tuple):
+    opt = kind.endswith('?')
+    k = kind.rstrip('?')
+    sorts = [p.sort() for p in parents]
+    if parents:
+        f = z3.Function(name, *sorts, SORTS[k])
+        z = f(*parents)
+        n = z3.Function(name + '.isNone', *sorts, z3.BoolSort())(*parents) if opt else None
+    else:
+        z = z3.Const(name, SORTS[k])
+        n = z3.Bool(name + '.isNone') if opt else None
+    return SV(k, z, n)
+
+
+class Stubs:
+    """Contracts (assumed at this level, proved in the SQL checks) of the wn._queries functions: the result is
+    an uninterpreted function of the arguments; every call is recorded."""
+
+    def __init__(self):
+        self.calls: list = []
+
+    def contracts(self) -> dict:
+        out = {}
+        for name in list(ROW_KINDS) + list(SCALAR_KINDS):
+            fn = getattr(Q, name)
+            out[fn] = self.make_handler(name, fn)
+        return out
+
+    def make_handler(self, name, fn):
+        sig = inspect.signature(fn)
+
+        def handler(it, args, kwargs, node):
+            try:
+                ba = sig.bind(*args, **kwargs)
+            except TypeError as exc:
+                raise PyRaise(TypeError, (str(exc),), node)
+            ba.apply_defaults()
+            bound = dict(ba.arguments)
+            ev = Event('call', guard=it.ctx.current_guard(), binders=list(it.ctx.all_binders()), node=node,
+                       extra={'fn': name, 'args': bound}, pc_len=len(it.ctx.pc))
+            it.ctx.effects.append(ev)
+            keyparts, parents = [], []
+            for k, v in bound.items():
+                kp, ts = arg_key(v)
+                keyparts.append(f'{k}={kp}')
+                parents.extend(ts)
+            base = f'{name}[{";".join(keyparts)}]'
+            if name in SCALAR_KINDS:
+                return make_value(SCALAR_KINDS[name], base, tuple(parents))
+            kinds = ROW_KINDS[name]
+
+            def make_elem(path, idx, kinds=kinds, base=base):
+                vals = tuple(make_value(k, f'{base}.{j}', tuple(idx)) for j, k in enumerate(kinds))
+                return vals[0] if name in FLAT else vals
+            return SList(base, make_elem, tuple(parents))
+        return handler
+
+
+def scope_contract():
+    """_LexiconElement._get_lexicon_ids: by contract an opaque scope token per entity (checked separately)."""
+    cache: dict = {}
+
+    def handler(it, args, kwargs, node):
+        selfv = args[0]
+        key = id(selfv)
+        if key not in cache:
+            def make(path, idx):
+                f = z3.Function(path + '.at', *([z3.IntSort()] * len(idx)), z3.IntSort())
+                return SV('int', f(*idx))
+            parents = ()
+            nm = f'scope({getattr(selfv, "name", "?")})'
+            lid = selfv.attrs.get('_lexid') if isinstance(selfv, SObj) else None
+            rid = selfv.attrs.get('_id') if isinstance(selfv, SObj) else None
+            ps = tuple(x.z for x in (lid, rid) if isinstance(x, SV))
+            cache[key] = SList(f'scope[{type_name(selfv)}]', make, ps)
+        return cache[key]
+    return handler
+
+
+def type_name(o):
+    return getattr(getattr(o, 'cls', None), '__name__', type(o).__name__)
+
+
+# ---------------------------------------------------------------------------------------------
+# symbolic receivers
+
+def make_wordnet(name='W') -> SObj:
+    w = SObj(core.Wordnet, name=name)
+    w.attrs['_lexicon_ids'] = SList(f'{name}._lexicon_ids', lambda p, idx: SV('int', z3.Function(
+        p + '.at', z3.IntSort(), z3.IntSort())(*idx)))
+    w.attrs['_expanded_ids'] = SList(f'{name}._expanded_ids', lambda p, idx: SV('int', z3.Function(
+        p + '.at', z3.IntSort(), z3.IntSort())(*idx)))
+    w.attrs['_default_mode'] = mk('bool', f'{name}._default_mode')
+    w.attrs['_search_all_forms'] = mk('bool', f'{name}._search_all_forms')
+    w.attrs['_lexicons'] = ()
+    w.attrs['_expanded'] = ()
+    return w
+
+
+def make_self(cls, w: SObj, name='self') -> SObj:
+    o = SObj(cls, name=name)
+    n = name
+    if cls is core.Wordnet:
+        return w
+    if cls in (core.Word, core.Sense, core.Synset):
+        o.attrs['_id'] = mk('int', f'{n}._id')
+        o.attrs['_lexid'] = mk('int', f'{n}._lexid')
+        o.attrs['_wordnet'] = w
+        o.attrs['id'] = mk('str', f'{n}.id')
+    if cls is core.Word:
+        o.attrs['pos'] = mk('str', f'{n}.pos')
+        o.attrs['_forms'] = mk('obj', f'{n}._forms')
+    if cls is core.Sense:
+        o.attrs['_entry_id'] = mk('str', f'{n}._entry_id')
+        o.attrs['_synset_id'] = mk('str', f'{n}._synset_id')
+    if cls is core.Synset:
+        o.attrs['pos'] = mk('str', f'{n}.pos')
+        o.attrs['_ili'] = mk('str', f'{n}._ili', optional=True)
+    if cls is core.Form:
+        o.attrs['_id'] = mk('int', f'{n}._id')
+        o.attrs['id'] = mk('str', f'{n}.id', optional=True)
+        o.attrs['script'] = mk('str', f'{n}.script', optional=True)
+    if cls in (core.Lexicon, core.ILI):
+        o.attrs['_id'] = mk('int', f'{n}._id')
+        if cls is core.ILI:
+            o.attrs['status'] = mk('str', f'{n}.status')
+            o.attrs['id'] = mk('str', f'{n}.id', optional=True)
+    if cls is core.Count:
+        o.attrs['_id'] = mk('int', f'{n}._id')
+    return o
+
+
+# (spec name, class, method, extra positional args (kind), extra kwargs)
+FLOWS = [
+    ('Word_senses', core.Word, 'senses', [], {}),
+    ('Word_metadata', core.Word, 'metadata', [], {}),
+    ('Word_synsets', core.Word, 'synsets', [], {}),
+    ('Word_derived_words', core.Word, 'derived_words', [], {}),
+    ('Form_pronunciations', core.Form, 'pronunciations', [], {}),
+    ('Form_tags', core.Form, 'tags', [], {}),
+    ('Sense_word', core.Sense, 'word', [], {}),
+    ('Sense_synset', core.Sense, 'synset', [], {}),
+    ('Sense_examples', core.Sense, 'examples', [], {}),
+    ('Sense_lexicalized', core.Sense, 'lexicalized', [], {}),
+    ('Sense_adjposition', core.Sense, 'adjposition', [], {}),
+    ('Sense_frames', core.Sense, 'frames', [], {}),
+    ('Sense_counts', core.Sense, 'counts', [], {}),
+    ('Sense_metadata', core.Sense, 'metadata', [], {}),
+    ('Sense__iter_sense_relations', core.Sense, '_iter_sense_relations', ['*str'], {}),
+    ('Sense__iter_sense_synset_relations', core.Sense, '_iter_sense_synset_relations', ['*str'], {}),
+    ('Sense_translate', core.Sense, 'translate', [], {'lexicon': 'str?', 'lang': 'str?'}),
+    ('Synset_definition', core.Synset, 'definition', [], {}),
+    ('Synset_examples', core.Synset, 'examples', [], {}),
+    ('Synset_senses', core.Synset, 'senses', [], {}),
+    ('Synset_lexicalized', core.Synset, 'lexicalized', [], {}),
+    ('Synset_lexfile', core.Synset, 'lexfile', [], {}),
+    ('Synset_metadata', core.Synset, 'metadata', [], {}),
+    ('Synset_words', core.Synset, 'words', [], {}),
+    ('Synset_lemmas', core.Synset, 'lemmas', [], {}),
+    ('Synset_translate', core.Synset, 'translate', [], {'lexicon': 'str?', 'lang': 'str?'}),
+    ('Synset__iter_local_relations', core.Synset, '_iter_local_relations', ['seq:str'], {}),
+    ('Synset__iter_relations', core.Synset, '_iter_relations', ['*str'], {}),
+    ('Synset__iter_expanded_relations', core.Synset, '_iter_expanded_relations', ['seq:str'], {}),
+    ('Synset_ili', core.Synset, 'ili', [], {}),
+    ('Wordnet_word', core.Wordnet, 'word', ['str'], {}),
+    ('Wordnet_synset', core.Wordnet, 'synset', ['str'], {}),
+    ('Wordnet_sense', core.Wordnet, 'sense', ['str'], {}),
+    ('Wordnet_ili', core.Wordnet, 'ili', ['str'], {}),
+    ('Wordnet_ilis', core.Wordnet, 'ilis', [], {'status': 'str?'}),
+    ('Lexicon_metadata', core.Lexicon, 'metadata', [], {}),
+    ('Lexicon_modified', core.Lexicon, 'modified', [], {}),
+    ('Count_metadata', core.Count, 'metadata', [], {}),
+    ('ILI_metadata', core.ILI, 'metadata', [], {}),
+]
+
+
+# callees that are replaced by an *abstract* contract (call recorded, result an uninterpreted function of the
+# receiver and arguments) when the caller only composes them: (class, method, result kind)
+ABSTRACT = {
+    'Word_synsets': [(core.Sense, 'synset', 'obj:Synset')],
+    'Word_derived_words': [(core.Sense, 'word', 'obj:Word'), (core.Sense, 'get_related', 'list:Sense')],
+    'Synset_words': [(core.Sense, 'word', 'obj:Word')],
+    'Synset_lemmas': [(core.Synset, 'words', 'list:Word'), (core.Word, 'lemma', 'obj:Form')],
+    'Sense_translate': [(core.Sense, 'synset', 'obj:Synset'), (core.Synset, 'translate', 'list:Synset'),
+                        (core.Synset, 'senses', 'list:Sense')],
+    'Synset__iter_relations': [(core.Synset, '_iter_local_relations', 'list:pair'),
+                               (core.Synset, '_iter_expanded_relations', 'list:pair')],
+}
+
+
+def abstract_handler(cls, method, kind):
+    qn = f'{cls.__name__}.{method}'
+
+    def handler(it, args, kwargs, node):
+        recv = args[0]
+        bound = {'self': recv}
+        for i, a in enumerate(args[1:]):
+            bound[f'arg{i}'] = a
+        bound.update(kwargs)
+        it.ctx.effects.append(Event('call', guard=it.ctx.current_guard(), binders=list(it.ctx.all_binders()),
+                                    node=node, extra={'fn': qn, 'args': bound}, pc_len=len(it.ctx.pc)))
+        keyparts, parents = [], []
+        for k, v in bound.items():
+            if isinstance(v, SObj):
+                kp = '@' + type_name(v)
+                ts = [x.z for x in (v.attrs.get('_id'), v.attrs.get('_lexid')) if isinstance(x, SV)]
+            else:
+                kp, ts = arg_key(v)
+            keyparts.append(f'{k}={kp}')
+            parents.extend(ts)
+        base = f'{qn}[{";".join(keyparts)}]'
+        what, _, cname = kind.partition(':')
+
+        def mkobj(idx):
+            if cname == 'pair':
+                return make_value('obj', base + '.pair', tuple(idx))
+            o = SObj(getattr(core, cname), name=f'{base}@{[str(i) for i in idx]}')
+            o.attrs['_id'] = make_value('int', base + '._id', tuple(idx))
+            o.attrs['_lexid'] = make_value('int', base + '._lexid', tuple(idx))
+            o.attrs['_wordnet'] = recv.attrs.get('_wordnet') if isinstance(recv, SObj) else None
+            return o
+        if what == 'obj':
+            return mkobj(tuple(parents))
+        return SList(base, lambda path, idx: mkobj(idx), tuple(parents))
+    return handler
+
+
+def real_function(cls, method):
+    f = cls.__dict__[method]
+    if isinstance(f, property):
+        return f.fget
+    return f
+
+
+def build_contracts(stubs: Stubs, under_test, under_spec=None) -> dict:
+    """Query stubs + the specifications of every accessor except the one under test."""
+    contracts = stubs.contracts()
+    contracts[core._LexiconElement._get_lexicon_ids] = scope_contract()
+    for spec_name, cls, method, _, _ in FLOWS:
+        real = real_function(cls, method)
+        if real is under_test:
+            continue
+        spec = getattr(spec_core, spec_name)
+
+        def h(it, args, kwargs, node, spec=spec):
+            return it.call_function(spec, args, kwargs)
+        contracts[real] = h
+    for cls, method, kind in ABSTRACT.get(under_spec, []):
+        contracts[real_function(cls, method)] = abstract_handler(cls, method, kind)
+    # module-level wn.synsets / Wordnet(): results are functions of the arguments
+    contracts[core.synsets] = module_query('synsets', ('form', 'pos', 'ili', 'lexicon', 'lang'))
+    contracts[core.Wordnet] = fresh_wordnet
+    contracts[spec_core.SCOPE] = lambda it, args, kwargs, node: it.call(
+        core._LexiconElement._get_lexicon_ids, args, kwargs, node)
+    return contracts
+
+
+def fresh_wordnet(it, args, kwargs, node):
+    """Wordnet(...) constructed implicitly (default-mode fallback of _LexiconElement.__init__): a *different*
+    Wordnet than any the caller holds."""
+    w = SObj(core.Wordnet, name=fresh_name('ImplicitWordnet'))
+    it.ctx.effects.append(Event('call', guard=it.ctx.current_guard(), binders=list(it.ctx.all_binders()),
+                                node=node, extra={'fn': 'Wordnet', 'args': dict(kwargs, _pos=tuple(args))},
+                                pc_len=len(it.ctx.pc)))
+    return w
+
+
+def module_query(name, params):
+    def handler(it, args, kwargs, node):
+        bound = dict(zip(params, args))
+        bound.update(kwargs)
+        for p in params:
+            bound.setdefault(p, None)
+        it.ctx.effects.append(Event('call', guard=it.ctx.current_guard(), binders=list(it.ctx.all_binders()),
+                                    node=node, extra={'fn': 'wn.' + name, 'args': bound}, pc_len=len(it.ctx.pc)))
+        keyparts, parents = [], []
+        for k, v in bound.items():
+            kp, ts = arg_key(v)
+            keyparts.append(f'{k}={kp}')
+            parents.extend(ts)
+        base = f'wn.{name}[{";".join(keyparts)}]'
+
+        def make_elem(path, idx):
+            o = SObj(core.Synset, name=f'{base}@{idx}')
+            o.attrs['_id'] = make_value('int', base + '._id', tuple(idx))
+            o.attrs['_lexid'] = make_value('int', base + '._lexid', tuple(idx))
+            o.attrs['id'] = make_value('str', base + '.id', tuple(idx))
+            o.attrs['pos'] = make_value('str', base + '.pos', tuple(idx))
+            o.attrs['_ili'] = make_value('str?', base + '._ili', tuple(idx))
+            o.attrs['_wordnet'] = SObj(core.Wordnet, name=base + '.wordnet')
+            return o
+        return SList(base, make_elem, tuple(parents))
+    return handler
+
+
+def make_args(spec):
+    pos, kw = [], {}
+    return pos, kw
+
+
+def sym_extra(kind: str, name: str):
+    if kind == 'str':
+        return [mk('str', name)]
+    if kind == 'str?':
+        return [mk('str', name, optional=True)]
+    if kind == '*str':
+        return [mk('str', name + '0'), mk('str', name + '1')]   # two generic relation types
+    if kind == 'seq:str':
+        return [(mk('str', name + '0'), mk('str', name + '1'))]
+    raise Unsupported(kind)
+
+
+def events_equal(e1: list, e2: list):
+    """z3 Bool / bool: same recorded query calls."""
+    c1 = [e for e in e1 if e.kind == 'call']
+    c2 = [e for e in e2 if e.kind == 'call']
+    if len(c1) != len(c2):
+        return False, f'{len(c1)} query calls vs {len(c2)} expected: ' \
+                      f'{[e.extra["fn"] for e in c1]} vs {[e.extra["fn"] for e in c2]}'
+    parts = []
+    for a, b in zip(c1, c2):
+        if a.extra['fn'] != b.extra['fn']:
+            return False, f'call of {a.extra["fn"]} where {b.extra["fn"]} is expected'
+        if len(a.binders) != len(b.binders):
+            return False, f'call of {a.extra["fn"]} in a different iteration context'
+        subst = [(y.var, x.var) for x, y in zip(a.binders, b.binders) if not x.var.eq(y.var)]
+        ka, kb = a.extra['args'], b.extra['args']
+        if set(ka) != set(kb):
+            return False, f'call of {a.extra["fn"]} with different parameters'
+        cons = [x.constraint for x in a.binders]
+        for k in ka:
+            vb = famcmp.subst_value(kb[k], subst)
+            try:
+                eq = famcmp.value_eq(ka[k], vb)
+            except Unsupported as exc:
+                return False, f'{a.extra["fn"]}({k}=...): {exc}'
+            if eq is False:
+                return False, f'{a.extra["fn"]}: argument {k} differs structurally'
+            parts.append(z3.Implies(z_and(*cons, z_bool(a.guard)), z_bool(eq)))
+        ga = z_bool(a.guard)
+        gb = famcmp.subst_guard(z_bool(b.guard), subst)
+        parts.append(z3.Implies(z_and(*cons), ga == gb))
+    return z_and(*parts), ''
+
+
+def flow_obligations(prop: str, spec_name, cls, method, extra_pos, extra_kw) -> list:
+    real = real_function(cls, method)
+    spec = getattr(spec_core, spec_name)
+    w = make_wordnet('W')
+    selfv = make_self(cls, w)
+    pos = []
+    for i, k in enumerate(extra_pos):
+        pos.extend(sym_extra(k, f'arg{i}'))
+    kw = {k: sym_extra(v, k)[0] for k, v in extra_kw.items()}
+    name = f'wn._core.{cls.__name__}.{method}'
+    return compare_flows(prop, name, real, spec, [selfv] + list(pos), kw, spec_name)
+
+
+def compare_flows(prop, name, real, spec, args, kw, spec_name=None, skip_specs=()) -> list:
+    outs = {}
+    for which, fn in (('real', real), ('spec', spec)):
+        stubs = Stubs()
+        contracts = build_contracts(stubs, real, spec_name)
+        for f in skip_specs:
+            contracts.pop(f, None)
+        outs[which] = explore(lambda it, fn=fn: it.call_function(fn, list(args), dict(kw)),
+                              contracts=contracts, packages=('wn', 'contracts.spec_core'))
+    obs = []
+    for r in outs['real']:
+        for s in outs['spec']:
+            pc = list(r.pc) + list(s.pc) + lit_axioms()
+            chk = z3.Solver()
+            chk.set('timeout', 3000)
+            chk.add(*pc)
+            if chk.check() == z3.unsat:
+                continue
+            pid = f'{"".join("TF"[not d] for d in r.decisions) or "-"}/{"".join("TF"[not d] for d in s.decisions) or "-"}'
+            base = dict(prop=prop, kind='post', functions=(name,), source=source_span(real))
+            if r.kind != s.kind:
+                obs.append(Obligation(f'{name}:flow:outcome:{pid}', assumptions=pc, goal=z3.BoolVal(False),
+                                      detail=f'real code {r.kind}s ({_exc(r)}) where the contract {s.kind}s '
+                                             f'({_exc(s)})', **base))
+                continue
+            ev, why = events_equal(r.effects, s.effects)
+            if ev is False:
+                obs.append(Obligation(f'{name}:flow:calls:{pid}', assumptions=pc, goal=z3.BoolVal(False),
+                                      detail=why, **base))
+                continue
+            obs.append(Obligation(f'{name}:flow:calls:{pid}', assumptions=pc, goal=z_bool(ev),
+                                  detail='the query calls (function, scope and other arguments) must be the '
+                                         'prescribed ones', **base))
+            if r.kind == 'raise':
+                same = r.exc.exc_type is s.exc.exc_type
+                obs.append(Obligation(f'{name}:flow:raises:{pid}', decided=same,
+                                      detail=f'{r.exc.exc_type.__name__} vs {s.exc.exc_type.__name__}', **base))
+                continue
+            try:
+                eq = famcmp.value_eq(r.value, s.value)
+            except famcmp.ShapeMismatch as exc:
+                obs.append(Obligation(f'{name}:flow:result:{pid}', assumptions=pc, goal=z3.BoolVal(False),
+                                      detail=f'result has a different shape: {exc}', **base))
+                continue
+            obs.append(Obligation(f'{name}:flow:result:{pid}', assumptions=pc, goal=z_bool(eq),
+                                  detail='the returned objects must be built from the prescribed columns and '
+                                         'carry the Wordnet of the receiver', **base))
+    if not obs:
+        obs.append(Obligation(f'{name}:flow:paths', prop, 'post', decided=False,
+                              detail='no compatible pair of paths', functions=(name,)))
+    return obs
+
+
+def _exc(o: Outcome):
+    return o.exc.exc_type.__name__ if o.kind == 'raise' else ''
+
+
+def run_flows(sess: Session, prop: str, only: Optional[set] = None):
+    sess.assume('A-ENGINE')
+    for spec_name, cls, method, extra_pos, extra_kw in FLOWS:
+        if only is not None and spec_name not in only:
+            continue
+        try:
+            for ob in flow_obligations(prop, spec_name, cls, method, extra_pos, extra_kw):
+                sess.check(ob)
+        except Unsupported as exc:
+            sess.unsupported(f'wn._core.{cls.__name__}.{method}:flow', str(exc))
+
+
+def scope_flow_obligations(prop: str) -> list:
+    """_LexiconElement._get_lexicon_ids against its contract (it is the scope every accessor passes on)."""
+    w = make_wordnet('W')
+    obs = []
+    for cls in (core.Word, core.Sense, core.Synset):
+        selfv = make_self(cls, w)
+        real = core._LexiconElement._get_lexicon_ids
+        obs += compare_flows(prop, f'wn._core._LexiconElement._get_lexicon_ids[{cls.__name__}]', real,
+                             spec_core.LexiconElement__get_lexicon_ids, [selfv], {}, None, skip_specs=(real,))
+    return obs
+
+
+def find_helper_obligations(prop: str) -> list:
+    """wn._core._find_helper against the documented search procedure, for every combination of
+    {Word, Sense, Synset} x {no form, form} x lemmatizer {none, proposes nothing, proposes two generic
+    (pos, forms) entries} x normalizer {none, given}."""
+    from vc.pyvc.interp import AbstractFn
+    obs = []
+    queries = {core.Word: Q.find_entries, core.Sense: Q.find_senses, core.Synset: Q.find_synsets}
+    for cls, qf in queries.items():
+        for with_form in (False, True):
+            for lem in (('none', 'empty', 'two') if with_form else ('none',)):
+                for norm in ((False, True) if with_form else (False,)):
+                    w = make_wordnet('W')
+                    norm_f = z3.Function('normalize', UStr, UStr)
+                    w.attrs['_normalizer'] = AbstractFn('normalizer', lambda it, a, k, n: SV(
+                        'str', norm_f(a[0].z))) if norm else None
+                    form = mk('str', 'form') if with_form else None
+                    pos = mk('str', 'pos', optional=True)
+                    if lem == 'none':
+                        w.attrs['lemmatizer'] = None
+                    else:
+                        def lemmatize(it, a, k, n, lem=lem):
+                            d = MDict()
+                            if lem == 'two':
+                                for j in (1, 2):
+                                    key = mk('str', f'lemma_pos{j}', optional=True)
+                                    forms = SList(f'lemma_forms{j}', lambda p, idx: SV('str', z3.Function(
+                                        p + '.at', z3.IntSort(), UStr)(*idx)))
+                                    d.d[key] = forms
+                            return d
+                        w.attrs['lemmatizer'] = AbstractFn('lemmatizer', lemmatize)
+                    kw = {}
+                    if cls is core.Synset:
+                        kw['ili'] = mk('str', 'ili', optional=True)
+                    variant = f'{cls.__name__},form={with_form},lemmatizer={lem},normalizer={norm}'
+                    obs += compare_flows(prop, f'wn._core._find_helper[{variant}]', core._find_helper,
+                                         spec_core.find_helper, [w, cls, qf, form, pos], kw)
+    return obs
+
+
+def run_scope_flows(sess: Session, prop: str):
+    run_flows(sess, prop)
+    try:
+        for ob in scope_flow_obligations(prop):
+            sess.check(ob)
+    except Unsupported as exc:
+        sess.unsupported('wn._core._LexiconElement._get_lexicon_ids:flow', str(exc))
